@@ -73,7 +73,7 @@ def gen_cases(tier: str, seed: int) -> list[dict[str, Any]]:
     cases = []
     for a, b in itertools.product(range(len(OPS)), repeat=2):
         cases.append(dict(kind="exhaustive", length=L, prefix=[a, b]))
-    nr = 32 if tier == "quick" else 320
+    nr = 32 if tier == "quick" else 1600
     for i in range(nr):
         cases.append(dict(kind="random", seed=seed, idx=i, n=40, minlen=50, maxlen=300))
     return cases
